@@ -5,14 +5,25 @@
    ext2fs_run_ext3_journal, both around e2fsck/recovery.c jbd2_journal_recover) over a DEVICE WITH A VOLATILE WRITE
    CACHE, with unix_io's write-back block cache in between.
 
-   Device level (what harness/iotrace.so observes: pwrite / fsync on the image):
-     dur      content of stable storage, abstracted to the locations the property talks about:
+   TWO DEVICES.  The journal lives either inside the filesystem (journal inode: one device, one io_channel) or on a device
+   of its own (mke2fs -O journal_dev; the filesystem names it by s_journal_uuid): ext = TRUE.  Then the journal superblock
+   and the log are locations of the JOURNAL device ("jnl"), the replayed blocks and the primary superblock are locations of the
+   FILESYSTEM device ("fs"); each device has its own volatile write cache and its own fsync, the front-ends reach each through
+   its own unix_io channel (ctx->fs->io / ctx->journal_io) with its own write-back block cache, and sync_blockdev(kdev) has to
+   pick the channel of the device it is asked for.  A completed fsync(d) makes durable the pending writes OF DEVICE d ONLY; a
+   crash keeps any subset of the pending writes of the one device and, independently, any subset of those of the other
+   (OnDev / CrashImagesAreDeviceProduct below).  ext is part of the universe (chosen in Init among ExtChoices).
+
+   Device level (what harness/iotrace.so observes: pwrite / fsync on the image file(s)):
+     dur      content of stable storage (of both devices; every location lives on exactly one, DevOf), abstracted to the
+              locations the property talks about:
                 blk[b]  version held by filesystem block b (0 = content before recovery)
                 jsb     1 = journal superblock says "log has transactions" (s_start # 0), 0 = empty (s_start = 0),
                         2 = empty with s_errno set (a failed recovery recorded in the journal superblock)
                 st      1 = the filesystem superblock's s_state records a failed recovery (ERROR_FS set / VALID_FS clear)
                 sb      1 = filesystem superblock requests recovery (INCOMPAT_RECOVER), 0 = flag clear
-     pend     writes issued since the last COMPLETED fsync, in program order: [k, b, v]
+     pend     writes issued and not yet covered by a COMPLETED fsync of their device, in program order: [k, b, v];
+              the volatile write cache of device d is the subsequence of the entries with DevOf(k) = d
    The phase of a run as visible from the device is a function of what has been written so far (Cur): "recover" while the
    journal superblock says non-empty, then "released", and "cleared" once the flag is clear too (Ph below).
    A crash leaves dur plus ANY SUBSET of pend, applied in program order (lost and reordered writes: keeping an older
@@ -24,7 +35,9 @@
      cache    dirty entries of unix_io's write-back cache (at most one per location); over-approximated by
               nondeterministic write-back (WriteBack), which includes every LRU schedule of the 8-slot cache
      pc, i, todo   the front-end's position:  open -> check -> load -> replay -> sync -> release -> close -> reopen
-              -> clear -> final -> done     (order as read from the pinned tree, see the action comments)
+              -> clear -> final -> done     (order as read from the pinned tree, see the action comments); with a journal
+              device the journal's own channel is opened (jopen1..3: fsync of the journal device) before each of check, replay
+              and clear, and closed (jclose1..3: write-back, no fsync) after each of check, release and clear
      image, crashes   the crash image a Crash produced; RunAgain starts the same front-end on it
 
    The replay plan (which blocks pass 3 writes, in which order) is CHOSEN IN Init among all plans of at most MaxPlan
@@ -34,15 +47,18 @@
    s_start # 0 replays the whole plan again, a run that finds s_start = 0 replays nothing.
 
    Protocol constants -- TRUE is what the pinned tree does; FALSE is a wrong ordering that TLC must reject (vacuity
-   guard of the check, and the design-level image of the three mutants in mutants/C04_*.patch):
+   guard of the check, and the design-level image of the mutants in mutants/C04_*.patch):
      SyncInRecover      jbd2_journal_recover() ends with sync_blockdev(journal->j_fs_dev)
      ReleaseAfterFlush  *_journal_release(reset = 1) (jsb.s_start = 0) runs after that flush, not before it
      FlushFsyncs        unix_flush() = flush_cached_blocks() + fsync()
      OpenFsyncs         unix_open_channel() fsyncs the descriptor ("throw away previous errors"); the protocol's
-                        property-level invariants do NOT depend on it (checked with FALSE), only FlagAfterEmptyCrash does *)
+                        property-level invariants do NOT depend on it (checked with FALSE), only FlagAfterEmptyCrash does
+     SyncFsDev          sync_blockdev(journal->j_fs_dev) flushes the channel of the FILESYSTEM device (K_DEV_FS -> fs->io);
+                        FALSE = it picks the journal device's channel instead (the same channel when the journal is internal) *)
 EXTENDS Naturals, Integers, Sequences, FiniteSets, TLC
 
-CONSTANTS Blocks, MaxPlan, MaxCrash, SyncInRecover, ReleaseAfterFlush, FlushFsyncs, OpenFsyncs,
+CONSTANTS Blocks, MaxPlan, MaxCrash, SyncInRecover, ReleaseAfterFlush, FlushFsyncs, OpenFsyncs, SyncFsDev,
+          ExtChoices,       \* universe: subset of BOOLEAN, the values of ext explored (FALSE = internal journal, TRUE = journal device)
           DevErrorLostOnCrash,  \* named deviation (known finding): a FAILED recovery still empties the journal (s_start = 0, s_errno clear or
                             \* cleared again) before the failure is durable in the filesystem superblock's s_state; FALSE = repaired design:
                             \* the failure travels in jsb.s_errno with the release and is cleared only after s_state is durable
@@ -50,11 +66,12 @@ CONSTANTS Blocks, MaxPlan, MaxCrash, SyncInRecover, ReleaseAfterFlush, FlushFsyn
                             \* primary superblock as SEPARATE pwrites, the checksum word last; TRUE = what the pinned tree does
 
 VARIABLES dur, pend,                        \* device level
-          fin, legal, rfail,                \* the universe: Final per block, versions the log holds per block, recovery of this log fails
+          fin, legal, rfail, ext,           \* the universe: Final per block, versions the log holds per block, recovery of this log fails,
+                                            \* the journal is on a device of its own
           plan, cache, pc, i, todo, failed, \* program level (failed: this run's jbd2_journal_recover returned an error)
           image, crashes
 dvars == <<dur, pend>>
-uvars == <<fin, legal, rfail>>
+uvars == <<fin, legal, rfail, ext>>
 pvars == <<plan, cache, pc, i, todo, failed, image, crashes>>
 vars == <<dvars, uvars, pvars>>
 
@@ -62,8 +79,12 @@ Max(S) == CHOOSE m \in S : \A x \in S : x <= m
 E(k, b, v) == [k |-> k, b |-> b, v |-> v]
 NoImage == [blk |-> <<>>, jsb |-> -1, sb |-> -1, st |-> -1]
 
-\* ------------------------------------------------------------------------------------------ device
+\* ------------------------------------------------------------------------------------------ devices
+Devices == {"fs", "jnl"}
+DevOf(k) == IF ext /\ k \in {"jsb", "log"} THEN "jnl" ELSE "fs"     \* the device a location lives on
+JDev == DevOf("jsb")                                                \* the device that holds the journal
 All == 1..Len(pend)
+OnDev(d) == {n \in All : DevOf(pend[n].k) = d}                      \* the volatile write cache of device d
 Idx(S, k, b) == {n \in S : pend[n].k = k /\ pend[n].b = b}
 Val(S, k, b, d) == LET I == Idx(S, k, b) IN IF I = {} THEN d ELSE pend[Max(I)].v
 \* stable storage after a crash in which exactly the pending writes with index in S reached the medium
@@ -86,7 +107,9 @@ PhaseAllows(e) ==
      [] e.k = "sbp" -> TRUE                                                         \* a piece of the primary superblock not holding the flag
      [] OTHER -> FALSE                                                              \* e.g. a write into the log area
 DevWrite(e) == /\ PhaseAllows(e) /\ pend' = Append(pend, e) /\ UNCHANGED dur
-DevFsync == /\ dur' = Cur /\ pend' = <<>>                                          \* a COMPLETED fsync
+\* a COMPLETED fsync of device d: exactly the pending writes of d become durable, those of the other device stay volatile
+NotOn(d, e) == DevOf(e.k) # d
+DevFsync(d) == /\ dur' = ImageOf(OnDev(d)) /\ pend' = SelectSeq(pend, LAMBDA e : NotOn(d, e))
 
 \* ------------------------------------------------------------------------------------------ the property
 \* running recovery on image img to completion: replays iff the journal superblock still says "not empty"
@@ -98,8 +121,14 @@ Complete(img) == img.blk = fin
 Idempotent == \A b \in DOMAIN dur.blk : (PossJsb \cap {0, 2} # {} => PossBlk(b) = {fin[b]})
 \* the same, written out over the subsets (model checking only; pend is short there)
 IdempotentSubsets == \A S \in SUBSET All : RunAgainOf(ImageOf(S)).blk = fin
-\* I2  the journal is never marked empty on stable storage before every replayed block is durable
-NeverEmptyBeforeDurable == \A S \in SUBSET All : ImageOf(S).jsb # 1 => Complete(ImageOf(S))
+\* I2  the journal is never marked empty on stable storage before every replayed block is durable -- ACROSS the two devices:
+\*     whatever part A of the filesystem device's volatile cache and whatever part B of the journal device's survive together
+NeverEmptyBeforeDurable == \A A \in SUBSET OnDev("fs") : \A B \in SUBSET OnDev("jnl") :
+                              ImageOf(A \cup B).jsb # 1 => Complete(ImageOf(A \cup B))
+\* the crash images are the product of what the two devices may each keep (and with one device there is one factor)
+CrashImagesAreDeviceProduct == /\ OnDev("fs") \cup OnDev("jnl") = All /\ OnDev("fs") \cap OnDev("jnl") = {}
+                               /\ (~ext => OnDev("jnl") = {})
+                               /\ {ImageOf(S) : S \in SUBSET All} = {ImageOf(A \cup B) : A \in SUBSET OnDev("fs"), B \in SUBSET OnDev("jnl")}
 \* I3  the filesystem keeps requesting recovery until then
 KeepsRequesting == \A b \in DOMAIN dur.blk : (0 \in PossSb => PossBlk(b) = {fin[b]})
 \* needs_recovery cleared durable => journal empty durable
@@ -123,47 +152,67 @@ Torn(S) == \E n \in S \cap SbIsh : \E m \in SbIsh \ S : TRUE
 SbAtomic == \A S \in SUBSET All : ~Torn(S)
 SbAtomicOrDev == DevSbPiecemeal \/ Cardinality(SbIsh) <= 1
 \* a finished run has everything on every crash image (idempotent rewrites may still be pending)
-Finished == PossJsb = {0} /\ PossSb = {0} /\ (DevErrorLostOnCrash \/ PossSt = {FinSt}) /\ \A b \in DOMAIN dur.blk : PossBlk(b) = {fin[b]}
+\* (external journal: the last rewrite of the already empty journal superblock -- s_sequence, a cleared s_errno -- is written back when
+\* the journal's channel is closed and no fsync of the journal device follows; the journal is empty on every crash image either way)
+Finished == (IF ext THEN 1 \notin PossJsb ELSE PossJsb = {0}) /\ PossSb = {0} /\ (DevErrorLostOnCrash \/ PossSt = {FinSt}) /\ \A b \in DOMAIN dur.blk : PossBlk(b) = {fin[b]}
 Done == pc = "done" => Finished
 CrashedIdempotent == pc = "crashed" => RunAgainOf(image).blk = fin /\ (DevErrorLostOnCrash \/ RunAgainOf(image).st = FinSt)
 
 \* ------------------------------------------------------------------------------------------ program
 SameLoc(x, e) == x.k = e.k /\ x.b = e.b
-Logical(e) == cache' = {x \in cache : ~SameLoc(x, e)} \cup {e}          \* io_channel_write_blk64 into the cache
+Logical(e) == cache' = {x \in cache : ~SameLoc(x, e)} \cup {e}          \* io_channel_write_blk64 into the cache of the location's channel
+CacheOn(d) == {x \in cache : DevOf(x.k) = d}                            \* dirty entries of the unix_io channel opened on device d
 Running == pc \notin {"crashed", "done"}
 WriteBack == /\ Running /\ \E e \in cache : DevWrite(e) /\ cache' = cache \ {e}     \* eviction / flush_cached_blocks of one entry
              /\ UNCHANGED <<uvars, plan, pc, i, todo, failed, image, crashes>>
 Step(next) == pc' = next /\ UNCHANGED <<uvars, plan, i, todo, failed, image, crashes>>
 Quiet == UNCHANGED dvars
-\* unix_flush: every dirty entry written back (by WriteBack steps), then fsync unless the mutant skips it
-Flush(next) == /\ cache = {} /\ (IF FlushFsyncs THEN DevFsync ELSE Quiet) /\ UNCHANGED cache /\ Step(next)
+\* unix_flush on the channel of device d: every dirty entry of THAT channel written back (by WriteBack steps), then fsync of
+\* THAT device unless the mutant skips it
+Flush(d, next) == /\ CacheOn(d) = {} /\ (IF FlushFsyncs THEN DevFsync(d) ELSE Quiet) /\ UNCHANGED cache /\ Step(next)
+\* steps that exist only when the journal has a channel of its own
+ViaJ(pj, p) == IF ext THEN pj ELSE p
 
-Open    == /\ pc = "open" /\ (IF OpenFsyncs THEN DevFsync ELSE Quiet) /\ UNCHANGED cache /\ Step("check")
+\* ext2fs_open -> unix_open on the filesystem device.  e2fsck goes on to e2fsck_check_ext3_journal (jopen1, check, jclose1);
+\* debugfs jr starts recovery at once
+Open    == /\ pc = "open" /\ (IF OpenFsyncs THEN DevFsync("fs") ELSE Quiet) /\ UNCHANGED cache
+           /\ \E nx \in (IF ext THEN {"jopen1", "load"} ELSE {"check"}) : Step(nx)
+\* *_get_journal with an external journal: unix_open(journal_name) -> a channel of its own on the journal device (fsync of THAT device)
+AfterRelease == IF ~ReleaseAfterFlush /\ SyncInRecover THEN "sync" ELSE "close"
+JOpenAt == [jopen1 |-> "check", jopen2 |-> "replay", jopen3 |-> "clear"]
+JOpen   == /\ pc \in DOMAIN JOpenAt /\ (IF OpenFsyncs THEN DevFsync("jnl") ELSE Quiet) /\ UNCHANGED cache /\ Step(JOpenAt[pc])
+\* *_journal_release with an external journal: io_channel_close(journal_io) -> unix_close: write-back of that channel, NO fsync
+JCloseAt == [jclose1 |-> "load", jclose2 |-> AfterRelease, jclose3 |-> "final"]
+JClose  == /\ pc \in DOMAIN JCloseAt /\ CacheOn("jnl") = {} /\ Quiet /\ UNCHANGED cache /\ Step(JCloseAt[pc])
 \* e2fsck_check_ext3_journal -> e2fsck_journal_release(reset = 0): rewrites the journal superblock as it is (e2fsck only);
 \* journal not empty but flag clear (only a crash image of a wrong protocol): e2fsck sets the flag again, debugfs does not care
 CheckJsb == /\ pc = "check" /\ Quiet
             /\ \/ Logical(E("jsb", 0, Cur.jsb)) \/ UNCHANGED cache
                \/ (Cur.jsb = 1 /\ Cur.sb = 0 /\ Logical(E("sb", 0, 1)))
-            /\ Step("load")
+            /\ Step(ViaJ("jclose1", "load"))
 \* nothing to do at all: journal empty and flag clear
 Load    == /\ pc = "load" /\ Quiet /\ UNCHANGED cache
            /\ todo' = (IF Cur.jsb = 1 THEN plan ELSE <<>>)                \* jbd2_journal_recover: if (!sb->s_start) return 0
            /\ failed' = (Cur.jsb = 1 /\ rfail)                          \* the same log fails the same way every time
-           /\ i' = 1 /\ pc' = (IF Cur.jsb = 0 /\ Cur.sb = 0 THEN "final" ELSE "replay")
+           /\ i' = 1 /\ pc' = (IF Cur.jsb = 0 /\ Cur.sb = 0 THEN "final" ELSE ViaJ("jopen2", "replay"))
            /\ UNCHANGED <<uvars, plan, image, crashes>>
-\* do_one_pass(PASS_REPLAY): one logged block copied to its home location (through the cache)
+\* do_one_pass(PASS_REPLAY): one logged block copied to its home location on the filesystem device (through fs->io's cache)
 ReplayWrite == /\ pc = "replay" /\ i <= Len(todo) /\ Quiet /\ Logical(E("blk", todo[i][1], todo[i][2])) /\ i' = i + 1
                /\ UNCHANGED <<uvars, plan, pc, todo, failed, image, crashes>>
 EndReplay == /\ pc = "replay" /\ i > Len(todo) /\ Quiet /\ UNCHANGED cache
              /\ Step(IF ~ReleaseAfterFlush THEN "release" ELSE IF SyncInRecover THEN "sync" ELSE "release")
-SyncFs  == pc = "sync" /\ Flush(IF ReleaseAfterFlush THEN "release" ELSE "close")      \* sync_blockdev -> io_channel_flush
+\* sync_blockdev(journal->j_fs_dev) -> io_channel_flush of the channel sync_blockdev picks for that kdev
+SyncFs  == pc = "sync" /\ Flush(IF SyncFsDev THEN "fs" ELSE JDev, IF ReleaseAfterFlush THEN "release" ELSE "close")
 \* jsb->s_start = 0; brelse -- even after a failed recovery (errout: still release(reset = 1)); s_errno is kept as found,
-\* and in the repaired design set when this run failed
+\* and in the repaired design set when this run failed.  The write goes to the journal's channel, which an external journal
+\* then closes (jclose2)
 JsbRelease == /\ pc = "release" /\ Quiet
               /\ Logical(E("jsb", 0, IF Cur.jsb = 2 \/ (failed /\ ~DevErrorLostOnCrash) THEN 2 ELSE 0))
-              /\ Step(IF ~ReleaseAfterFlush /\ SyncInRecover THEN "sync" ELSE "close")
+              /\ Step(ViaJ("jclose2", AfterRelease))
 CloseFs == /\ pc = "close" /\ cache = {} /\ Quiet /\ UNCHANGED cache /\ Step("reopen")   \* ext2fs_free -> unix_close: write-back, no fsync
-Reopen  == /\ pc = "reopen" /\ (IF OpenFsyncs THEN DevFsync ELSE Quiet) /\ UNCHANGED cache /\ Step("clear")
+\* ext2fs_open again (fsync of the filesystem device); *_clear_recover changes the superblock in memory only, *_check_ext3_journal
+\* opens the journal again (jopen3: fsync of the journal device) before anything of that reaches a channel
+Reopen  == /\ pc = "reopen" /\ (IF OpenFsyncs THEN DevFsync("fs") ELSE Quiet) /\ UNCHANGED cache /\ Step(ViaJ("jopen3", "clear"))
 \* *_clear_recover + the check's release(reset = 0) + ext2fs_flush: flag cleared, journal superblock rewritten (order free)
 ClearRecover == /\ pc = "clear" /\ Quiet
                 /\ LET err    == failed \/ Cur.jsb = 2           \* *_clear_recover(error) / s_errno found by *_check_ext3_journal
@@ -174,10 +223,10 @@ ClearRecover == /\ pc = "clear" /\ Quiet
                       THEN cache' = keep \cup pieces /\ Step("errflush")          \* s_state first, s_errno cleared after the flush
                       ELSE /\ \/ cache' = {x \in keep : x.k # "jsb"} \cup pieces \cup {E("jsb", 0, 0)}
                               \/ (Cur.jsb # 2 /\ cache' = keep \cup pieces)
-                           /\ Step("final")
-ErrFlush == pc = "errflush" /\ Flush("errclear")
-ErrClear == /\ pc = "errclear" /\ Quiet /\ Logical(E("jsb", 0, 0)) /\ Step("final")
-FinalFlush == pc = "final" /\ Flush("done")                                                \* ext2fs_close -> ext2fs_flush -> io_channel_flush
+                           /\ Step(ViaJ("jclose3", "final"))
+ErrFlush == pc = "errflush" /\ Flush("fs", "errclear")
+ErrClear == /\ pc = "errclear" /\ Quiet /\ Logical(E("jsb", 0, 0)) /\ Step(ViaJ("jclose3", "final"))
+FinalFlush == pc = "final" /\ Flush("fs", "done")                                          \* ext2fs_close -> ext2fs_flush -> io_channel_flush(fs->io)
 
 Crash == /\ Running /\ crashes < MaxCrash
          /\ \E S \in SUBSET All : image' = ImageOf(S)
@@ -194,14 +243,16 @@ FinalOfPlan(p) == [b \in Blocks |-> LET I == {n \in 1..Len(p) : p[n][1] = b} IN 
 LegalOfPlan(p) == [b \in Blocks |-> {p[n][2] : n \in {m \in 1..Len(p) : p[m][1] = b}}]
 
 Init == /\ plan \in Plans
-        /\ fin = FinalOfPlan(plan) /\ legal = LegalOfPlan(plan) /\ rfail \in BOOLEAN
+        /\ fin = FinalOfPlan(plan) /\ legal = LegalOfPlan(plan) /\ rfail \in BOOLEAN /\ ext \in ExtChoices
         /\ dur = [blk |-> [b \in Blocks |-> 0], jsb |-> 1, sb |-> 1, st |-> 0] /\ pend = <<>>
         /\ cache = {} /\ pc = "open" /\ i = 1 /\ todo = <<>> /\ failed = FALSE /\ image = NoImage /\ crashes = 0
-Next == \/ Open \/ CheckJsb \/ Load \/ ReplayWrite \/ EndReplay \/ SyncFs \/ JsbRelease \/ CloseFs \/ Reopen
+Next == \/ Open \/ JOpen \/ JClose \/ CheckJsb \/ Load \/ ReplayWrite \/ EndReplay \/ SyncFs \/ JsbRelease \/ CloseFs \/ Reopen
         \/ ClearRecover \/ ErrFlush \/ ErrClear \/ FinalFlush \/ WriteBack \/ Crash \/ RunAgain
 Spec == Init /\ [][Next]_vars
 
-TypeOK == /\ pc \in {"open", "check", "load", "replay", "sync", "release", "close", "reopen", "clear", "errflush", "errclear", "final", "done", "crashed", "trace"}
+TypeOK == /\ pc \in {"open", "check", "load", "replay", "sync", "release", "close", "reopen", "clear", "errflush", "errclear", "final", "done", "crashed", "trace",
+                  "jopen1", "jopen2", "jopen3", "jclose1", "jclose2", "jclose3"}
+          /\ ext \in BOOLEAN /\ (~ext => pc \notin (DOMAIN JOpenAt \cup DOMAIN JCloseAt))
           /\ dur.jsb \in {0, 1, 2} /\ dur.sb \in {0, 1} /\ dur.st \in {0, 1} /\ crashes \in 0..MaxCrash
           /\ \A x \in cache : \A y \in cache : SameLoc(x, y) => x = y
 \* the program never asks the device for something the device-level protocol (PhaseAllows) forbids: every dirty cache
